@@ -229,9 +229,6 @@ def run(ctx):
     nfiles = max(1, min(16, -(-len(body) // 40))) if len(body) <= 16 * per_file else -(-len(body) // per_file)
     files = [(body[i::nfiles], recs[i::nfiles]) for i in range(nfiles) if body[i::nfiles]]
     ctx.sample({"case": violation_data(cases[30][0], cases[30][1], [], cases[30][2])})
-    from harness import statecarry
-
-    statecarry.run_for(ctx, "C09")      # sequences of calls (state carried between calls)
     large_stream(ctx)
     # ------------------------------------------------------------------ correspondence inside coqc
     mism = []
